@@ -94,6 +94,8 @@ inductive Cls where
   | randomExponential | randomImpulseSequence | markov
   -- recursive resolution by `Pattern.value` (misc group): `PConstant(<pattern>)`, a tuple containing patterns
   | constP | tupP
+  -- ext2 group: sequence.py (PMetropolis, PSequenceAction, PPatternGeneratorAction), core.py (PFunc), tonal.py
+  | metropolis | sequenceAction | patternGeneratorAction | func | keyTonic | keyScale
   deriving DecidableEq, Repr, Inhabited
 
 /-- A pattern object. -/
